@@ -7,7 +7,7 @@ From Verif Require Import lib.Int64 model.Exemplar.
 Import ListNotations.
 Open Scope Z_scope.
 
-Record case := mkCase { c_id : Z; c_len : Z; c_win : Z; c_ops : list op; c_obs : list obs }.
+Record case := mkCase { c_id : Z; c_len : Z; c_win : Z; c_ops : list hop; c_obs : list obs }.
 
 Definition optz_eqb (a b : option Z) : bool :=
   match a, b with Some x, Some y => x =? y | None, None => true | _, _ => false end.
@@ -24,6 +24,7 @@ Definition obs_eqb (a b : obs) : bool :=
   | BSel x, BSel y => list_eqb (fun p q => (fst p =? fst q) && list_eqb ex_same (snd p) (snd q)) x y
   | BIter x, BIter y => list_eqb (fun p q => (fst p =? fst q) && ex_same (snd p) (snd q)) x y
   | BDump n s i, BDump n' s' i' => (n =? n') && list_eqb slot_eqb s s' && list_eqb ixe_eqb i i'
+  | BErrs x, BErrs y => list_eqb verr_eqb x y
   | BPanic, BPanic => true
   | BHang, BHang => true
   | _, _ => false
@@ -39,11 +40,11 @@ Definition obs_eqb_nodump (a b : obs) : bool :=
   end.
 
 Definition agree (c : case) : bool :=
-  list_eqb obs_eqb (run (new_state (c_len c) (c_win c)) (c_ops c)) (c_obs c)
-  && list_eqb obs_eqb_nodump (r_run (r_new (c_len c) (c_win c)) (c_ops c)) (c_obs c)
+  list_eqb obs_eqb (hrun (new_state (c_len c) (c_win c)) (c_ops c)) (c_obs c)
+  && list_eqb obs_eqb_nodump (r_hrun (r_new (c_len c) (c_win c)) (c_ops c)) (c_obs c)
   (* and, state by state, the pointer-level model is well-formed and abstracts to the ring-level
      model (the simulation that props/C21.v leaves unproved) *)
-  && sim_run (new_state (c_len c) (c_win c)) (r_new (c_len c) (c_win c)) (c_ops c).
+  && sim_hrun (new_state (c_len c) (c_win c)) (r_new (c_len c) (c_win c)) (c_ops c).
 
 (* --- the property itself, evaluated on the implementation's own output --- *)
 Fixpoint sorted_ts (l : list exemplar) : bool :=
@@ -68,12 +69,12 @@ Definition direct_ok (s : spec) (o : op) (b : obs) : bool :=
   | _, _ => true
   end.
 
-Fixpoint holds_run (s : spec) (ops : list op) (obs_ : list obs) : bool :=
+Fixpoint holds_run (s : spec) (ops : list hop) (obs_ : list obs) : bool :=
   match ops, obs_ with
   | [], [] => true
   | o :: t, b :: bt =>
-      let '(s', want) := sp_step WIdeal s o in
-      obs_eqb_nodump want b && direct_ok s o b && holds_run s' t bt
+      let '(s', want) := sp_hstep WIdeal s o in
+      obs_eqb_nodump want b && (match o with HPlain o' => direct_ok s o' b | HHead _ _ _ => true end) && holds_run s' t bt
   | _, _ => false           (* the implementation panicked / hung: history cut short *)
   end.
 
